@@ -54,6 +54,7 @@ def configs(tier, seed):
     # int-typed vectors moved by arbitrary (symbolic) real shifts and scales: the image is the exact affine image
     for k, ivec in enumerate([[0, 0, 1, 2, 2], [0, 1, 3], [-2, -2, -2, 0, 1, 1, 1], [0, 0, 0, 0, 5, 5, 5, 5]]):
         cfgs.append(dict(name=f"int vector {ivec} shifted / scaled", kind="intaffine", vec=ivec))
+    cfgs.append(dict(name="weight() with weights of mixed number classes", kind="weightmixed"))
     cfgs.append(dict(name="fp normalize [a,a,b,b]", kind="fp", shape="bez1", seeds=[[1.0, 3.0], [-7.5, 0.3]]))
     cfgs.append(dict(name="fp normalize [a,b]", kind="fp", shape="bez0", seeds=[[0.1, 49.0]]))
     return cfgs
@@ -183,6 +184,19 @@ def _inv(env, cfg):
     env.eq("N_i[normalize(U)]((u-umin)/L) == N_i[U](u)", list(Function(W)((u - t[0]) / L)), list(f(u)))
 
 
+def _weightmixed(env, cfg):
+    """weight() with weights of mixed number classes: the knots are the exact partial sums"""
+    from compmec.nurbs import GeneratorKnotVector as G
+    for p, w in [(1, [1, Fraction(1, 2), 2]), (2, [2, Fraction(3, 4)]), (0, [1, Fraction(1, 3), 1, Fraction(5, 2)]), (1, [Fraction(1, 2), 1, 3]),
+                 (1, [1, 0.5, 2])]:
+        kv = G.weight(p, list(w))
+        vals = [0]
+        for x in w:
+            vals.append(vals[-1] + x)
+        exp = [vals[0]] * (p + 1) + vals[1:-1] + [vals[-1]] * (p + 1)
+        env.holds(f"weight({p}, {w}): knots are the partial sums {exp}", list(kv) == exp and kv.degree == p)
+
+
 def _intaffine(env, cfg):
     from compmec.nurbs import KnotVector
     vec = list(cfg["vec"])
@@ -264,4 +278,4 @@ def _fp(env, cfg):
 
 
 def body(env, cfg):
-    {"gen": _gen, "random": _random, "weight": _weight, "inv": _inv, "intaffine": _intaffine, "fp": _fp}[cfg["kind"]](env, cfg)
+    {"gen": _gen, "random": _random, "weight": _weight, "inv": _inv, "intaffine": _intaffine, "weightmixed": _weightmixed, "fp": _fp}[cfg["kind"]](env, cfg)
